@@ -32,10 +32,12 @@ import (
 // the same way.
 
 type CrashCase struct {
-	Conc   *ConcCase `json:"conc,omitempty"` // two concurrent clients instead of one sequential workload
-	Seq    SeqCase   `json:"seq"`
-	Torn   string    `json:"torn"`   // none | even | all : which file-write crash points also get a torn variant
-	Level2 int       `json:"level2"` // how many first-level crash points also get every second-level (recovery) crash point
+	Conc       *ConcCase `json:"conc,omitempty"` // two concurrent clients instead of one sequential workload
+	Seq        SeqCase   `json:"seq"`
+	Torn       string    `json:"torn"`                     // none | even | all : which file-write crash points also get a torn variant
+	Level2     int       `json:"level2"`                   // how many first-level crash points also get every second-level (recovery) crash point
+	OnlyLastOp bool      `json:\"only_last_op,omitempty\"` // very long workloads: crash points of the tail only
+	TailPoints int       `json:\"tail_points,omitempty\"`
 }
 
 type propC04 struct{}
@@ -69,6 +71,9 @@ func (propC04) Runs(tier string) int {
 func (propC04) Gen(r *simrt.Rand, idx int, tier string) any {
 	if idx%4 == 3 {
 		return genCrashConc(r, idx, tier)
+	}
+	if idx%16 == 6 {
+		return genCrashBigCommit(r)
 	}
 	p := seqProfile{prop: "C04", steps: [2]int{3, 12}, keys: [2]int{2, 3}, maxTx: 2, txWeight: 60, ctlWeight: 15, readback: "none", big: idx%3 == 0, overlap: r.Intn(2) == 0}
 	c := genSeqCase(r, p)
@@ -603,7 +608,16 @@ func (propC04) Exec(x any, _ []int32) RunOut {
 		return out
 	}
 	level2Left := c.Level2
-	for n := 1; n <= M+1; n++ {
+	first := 1
+	if c.OnlyLastOp {
+		// very long workloads: only the crash points of the last operation (the big commit) and a
+		// handful before it
+		first = M - c.TailPoints
+		if first < 1 {
+			first = 1
+		}
+	}
+	for n := first; n <= M+1; n++ {
 		isWrite := n <= M && strings.HasSuffix(dryMuts[n-1], " write")
 		variants := []bool{false}
 		if isWrite && (c.Torn == "all" || (c.Torn == "even" && n%2 == 0)) {
@@ -927,4 +941,22 @@ func judgeCrashConc(c CrashCase, logPath string, v *verifyOut) *Violation {
 		}
 	}
 	return mk("acked-lost-after-crash", "not-linearizable", fmt.Sprintf("recovered state %v (keys %q) cannot be explained: the acknowledged operations, any subset of the %d operations in flight, the crash and the recovered reads have no linearization", v.First.Vals, v.First.Keys, len(maybe)))
+}
+
+// genCrashBigCommit: one transaction writing more keys than any batching constant one might
+// think of (1000, 1024, 2048), committed at once; the crash points of the commit are enumerated.
+func genCrashBigCommit(r *simrt.Rand) CrashCase {
+	c := SeqCase{Prop: "C04", ReadBack: "none"}
+	c.Sched = SchedSpec{Seed: r.Uint64() &^ 1, Strategy: "seqbg", MaxSteps: 20_000_000}
+	c.World = defaultWorldSpec()
+	n := []int{1001, 1025, 2049, 2500}[r.Intn(4)]
+	c.Keys = []string{"pre"}
+	c.Ops = append(c.Ops, Op{K: "set", Key: "pre", ID: 1, Size: 20}, Op{K: "begin", Tx: 1, Level: r.Intn(4)})
+	for i := 0; i < n; i++ {
+		k := fmt.Sprintf("big-%04d", i)
+		c.Keys = append(c.Keys, k)
+		c.Ops = append(c.Ops, Op{K: "set", Tx: 1, Key: k, ID: uint64(10 + i), Size: 9 + i%5})
+	}
+	c.Ops = append(c.Ops, Op{K: "set", Tx: 1, Key: "pre", ID: 5, Size: 21}, Op{K: "commit", Tx: 1})
+	return CrashCase{Seq: c, Torn: "none", OnlyLastOp: true, TailPoints: 12}
 }
